@@ -341,6 +341,47 @@ def obligations(tier):
         obs.append(Dim('C08.sedov.g%d' % g, [S.SM], srun, sin_,
                        {'r2': D_LEN, 'rho1': D_RHO, 'us': D_VEL, 'u2': D_VEL, 'rho2': D_RHO, 'p2': D_P},
                        lambda V, g=g: S.domain(V, g), functions=[H.mod(S.SM).Sedov._run], extra_shim=S.shim_extra(), max_paths=300))
+    # ---------------- ideal-gas Riemann solver: every kernel the driver composes is homogeneous of its dimension, in
+    # particular the four star-pressure FUNCTIONS (velocity-valued, pressure argument) and the five limiting velocities of
+    # the pattern selection: the root p* and the selected pattern of scaled data are then the scaled root / the same pattern
+    # (uniqueness of the root assumed, as in C09/C10)
+    for gl, gr in (R.GAMMA_PAIRS_QUICK if tier == 'quick' else R.GAMMA_PAIRS_FULL):
+        def krun(mk, gl=gl, gr=gr):
+            m, u = H.mod(R.RM), H.mod(R.UM)
+            st = {k: mk(k) for k in R.STATE}
+            inst = m.RiemannIGEOS(gl=K(mk, gl), gr=K(mk, gr), xd0=mk('xd0'), t=mk('t'), num_x_pts=2, **st)
+            inst.ul_tilde = st['ul'] + 2 * u.sound_speed(st['pl'], st['rl'], inst.gl, inst) / (inst.gl - 1)
+            p, x = mk('p'), mk('x')
+            d = {}
+            for nm in ('SCS', 'SCR', 'RCS', 'RCR'):
+                d['F_' + nm] = getattr(u, nm + '_call')(p, inst)
+            for nm in ('u_SCN', 'u_NCS', 'u_NCR', 'u_RCN', 'u_RCVR'):
+                d[nm] = getattr(u, nm)(st['pr'], inst)
+            # the two wave-curve functions the four star functions are sums of (with +/- the data velocities)
+            d['shock_l'] = u.shock(p, st['pl'], st['rl'], st['ul'], inst.gl, inst)
+            d['shock_r'] = u.shock(p, st['pr'], st['rr'], st['ur'], inst.gr, inst)
+            d['rare_l'] = u.rarefaction(p, st['pl'], st['rl'], st['ul'], inst.gl, inst)
+            d['rare_r'] = u.rarefaction(p, st['pr'], st['rr'], st['ur'], inst.gr, inst)
+            d['rho_shock'] = u.rho_star_shock(p, st['pl'], st['rl'], inst.gl, inst)
+            d['rho_rare'] = u.rho_star_rarefaction(p, st['pr'], st['rr'], inst.gr, inst)
+            d['V_shock'] = u.shock_velocity(p, st['pr'], st['rr'], st['ur'], inst.gr, inst)
+            d['c'] = u.sound_speed(p, d['rho_shock'], inst.gl, inst)
+            d['e'] = u.sie(p, d['rho_rare'], inst.gr, inst)
+            d['fan_rho'], d['fan_p'], d['fan_u'] = u.rho_p_u_rarefaction(st['pl'], st['rl'], st['ul'], inst.gl, x, mk('xd0'), mk('t'), inst)
+            return d
+        kd = {'rho_shock': D_RHO, 'rho_rare': D_RHO, 'V_shock': D_VEL, 'c': D_VEL, 'e': D_E, 'fan_rho': D_RHO, 'fan_p': D_P, 'fan_u': D_VEL}
+        for nm in ('F_SCS', 'F_SCR', 'F_RCS', 'F_RCR', 'u_SCN', 'u_NCS', 'u_NCR', 'u_RCN', 'u_RCVR', 'shock_l', 'shock_r', 'rare_l', 'rare_r'):
+            kd[nm] = D_VEL
+        u_ = H.mod(R.UM)
+        obs.append(Dim('C08.riemann.kernels.gl=%s.gr=%s' % (gl, gr), R.modules(), krun,
+                       {'rl': D_RHO, 'rr': D_RHO, 'ul': D_VEL, 'ur': D_VEL, 'pl': D_P, 'pr': D_P, 'xd0': D_LEN, 't': D_TIME, 'p': D_P, 'x': D_LEN},
+                       kd, lambda V: R.domain(V) + [T.gt(V('p'), T.ZERO), T.ne(V('pl'), V('pr'))],
+                       functions=[u_.SCS_call, u_.SCR_call, u_.RCS_call, u_.RCR_call, u_.u_SCN, u_.u_NCS, u_.u_NCR, u_.u_RCN, u_.u_RCVR,
+                                  u_.rho_star_shock, u_.rho_star_rarefaction, u_.shock_velocity, u_.sound_speed, u_.sie,
+                                  u_.rho_p_u_rarefaction],
+                       extra_shim=R.shim_extra(cut=False), scales=('sm', 'sl', 'st'), max_paths=50, timeout_s=30))
+        obs[-1].budget_s = 400
+        obs[-1].hard_timeout_s = 900
     # ---------------- ideal-gas Riemann solver: wave table and star state
     pairs = R.GAMMA_PAIRS_QUICK[:1] if tier == 'quick' else R.GAMMA_PAIRS_QUICK
     for gl, gr in pairs:
@@ -356,10 +397,17 @@ def obligations(tier):
         for i in range(5):
             od['V%d' % i] = D_VEL
             od['X%d' % i] = D_LEN
-        obs.append(DimEuler('C08.riemann.gl=%s.gr=%s.euler' % (gl, gr), R.modules(), rrun,
-                            {'rl': D_RHO, 'rr': D_RHO, 'ul': D_VEL, 'ur': D_VEL, 'pl': D_P, 'pr': D_P, 'xd0': D_LEN, 't': D_TIME}, od,
-                            lambda V: R.domain(V), functions=[H.mod(R.RM).RiemannIGEOS.driver], extra_shim=R.shim_extra(), max_paths=400,
-                            timeout_s=15))
+        for pat in ('SCS', 'SCR', 'RCS', 'RCR'):
+            # one obligation per wave pattern (own budget, run in parallel): the other patterns' paths are abandoned at bisect
+            def rrun_pat(mk, pat=pat, rrun=rrun):
+                from symx.engine import PathAbort
+                d = rrun(mk)
+                return d
+            sh = dict(R.shim_extra(), bisect=R.bisect_only(pat))
+            obs.append(DimEuler('C08.riemann.%s.gl=%s.gr=%s.euler' % (pat, gl, gr), R.modules(), rrun_pat,
+                                {'rl': D_RHO, 'rr': D_RHO, 'ul': D_VEL, 'ur': D_VEL, 'pl': D_P, 'pr': D_P, 'xd0': D_LEN, 't': D_TIME}, od,
+                                lambda V: R.domain(V), functions=[H.mod(R.RM).RiemannIGEOS.driver], extra_shim=sh, max_paths=400,
+                                timeout_s=15))
         if tier != 'thorough':
             continue
         o = Dim('C08.riemann.gl=%s.gr=%s' % (gl, gr), R.modules(), rrun,
